@@ -94,6 +94,68 @@ pub fn run(args: &Args) -> Value {
         }
         distinct.insert(format!("twin{}", ri));
     }
+    // ---- the generic sampler: twins from equal seeds and clones, every option combination (heat bath on / off,
+    // loops on / off): all randomness must come from the sampler's own generator
+    let same_q = |a: &GQ, b: &GQ| -> bool {
+        let mut x = jv(a);
+        let mut y = jv(b);
+        x["rng"]["log"] = json!(null);
+        y["rng"]["log"] = json!(null);
+        x == y
+    };
+    let mut n_twin_generic = 0usize;
+    for ri in 0..n_runs {
+        let mut spec = random_qmc(&mut rng);
+        spec.hb = ri % 2 == 0;
+        let seed = rng.next();
+        let beta = [0.5, 1.0, 2.0][rng.below(3) as usize];
+        let (mut a, mut b) = match (spec.build(TapeRng::new(seed)), spec.build(TapeRng::new(seed))) {
+            (Some(a), Some(b)) => (a, b),
+            _ => continue,
+        };
+        let ctx = json!({"sampler": "generic", "bonds": spec.bonds.iter().map(|b| json!([b.kind, b.mat, b.vars])).collect::<Vec<_>>(),
+            "loops": spec.loops, "heatbath": spec.hb, "beta": beta});
+        let nsteps = 4 + rng.below(8) as usize;
+        let kclone = rng.below(nsteps as u64) as usize;
+        let r = catch_unwind(AssertUnwindSafe(|| {
+            let mut fails: Vec<String> = vec![];
+            let mut c: Option<GQ> = None;
+            for k in 0..nsteps {
+                if k == kclone {
+                    c = Some(a.clone());
+                }
+                a.timestep(beta);
+                b.timestep(beta);
+                if !same_q(&a, &b) {
+                    fails.push(format!("generic twins built from equal inputs and seeds differ after step {}", k + 1));
+                    return fails;
+                }
+            }
+            if let Some(mut c) = c {
+                let before_a = jv(&a);
+                for _ in kclone..nsteps {
+                    c.timestep(beta);
+                }
+                if !same_q(&c, &a) {
+                    fails.push("a clone of a generic sampler does not continue like its original".into());
+                }
+                if jv(&a) != before_a {
+                    fails.push("stepping a clone of a generic sampler changed the original".into());
+                }
+            }
+            fails
+        }));
+        n_twin_generic += 1;
+        match r {
+            Ok(fails) => {
+                for f in fails {
+                    oracle_failures.push(json!({"what": f, "cloned_at": kclone, "context": ctx}));
+                }
+            }
+            Err(_) => oracle_failures.push(json!({"what": "a generic sampler panicked in a twin run", "context": ctx})),
+        }
+        distinct.insert(format!("gtwin{}", ri));
+    }
     // ---- serial vs parallel tempering driver under every pool size
     let n_lad = if args.thorough { 160 } else { 18 };
     for li in 0..n_lad {
@@ -148,6 +210,6 @@ pub fn run(args: &Args) -> Value {
     let files = crate::write_shards(&args.out, "C13", "Steps", &coq, 100);
     json!({"files": files, "evaluations": n_twin + n_clone + n_par, "distinct_nontrivial": distinct.len(), "twin_steps": n_twin, "clones": n_clone,
         "parallel_runs": n_par, "rayon_pool_sizes": pools_used, "model_replays": coq.len(),
-        "oracle_failures": oracle_failures, "samples": samples,
+        "generic_twin_runs": n_twin_generic, "oracle_failures": oracle_failures, "samples": samples,
         "rule": "equal-seed twins stepped in lock-step (all options), clones taken at a random step and compared with a re-run of the original, serial vs rayon tempering drivers on ladders of 2..8 replicas (beta / Hamiltonian / mixed ladders) under pools of 1,2,3,8,16 (1..16 thorough) threads, each twice; every third twin step is also replayed by the model from the logged words"})
 }
